@@ -45,7 +45,15 @@ def run (_tag : String) (kv : KV) : String :=
     let input : Input :=
       if kv.getD "kind" "stream" = "exited" then .exited
       else Scanner.firstInput stream (boolOf (kv.getD "eof" "0"))
-    showOutcome (startAgainOk Facts.handshake cfg ext input) (start Facts.handshake cfg ext input)
+    let out := start Facts.handshake cfg ext input
+    -- a translator that panics: every line that gets as far as the translation (i.e. does not fail one of the earlier
+    -- checks) ends in the foreign panic, after the deferred clean-up
+    if tr = "panic" then
+      match start Facts.handshake cfg { ext with translate := fun _ _ => none } input with
+      | .err .translate _ => showOutcome false (startForeignPanic Facts.handshake)
+      | o => showOutcome (startAgainOk Facts.handshake cfg ext input) o
+    else
+    showOutcome (startAgainOk Facts.handshake cfg ext input) out
   | _, _, _, _ => "bad-case"
 
 end GoPlugin.Oracle.C01
